@@ -494,7 +494,7 @@ def mc_front(ctx):
     common.write_ndjson(path, renumber_ids(recs))
     cfg = "SPECIFICATION Spec\nINVARIANT Accepted\nINVARIANT SameMeaning\nINVARIANT SameGroupCount\nINVARIANT NamesRight\nCHECK_DEADLOCK FALSE\n"
     r = tlc.run_mc(ctx, "MC_Front", cfg, env=dict(VH_PATS=path), workers=8, timeout=7200)
-    mc_violation(ctx, r, "MC_Front(%d patterns x 13 styles)" % len(recs))
+    mc_violation(ctx, r, "MC_Front(%d patterns x 15 styles)" % len(recs))
     ctx.cov["mc_front"] = dict(patterns=len(recs), pattern_style_pairs=r.distinct - len(recs) - 1,
                                note="front end closed in the specification: Spell -> characters -> Parse.tla -> Abs -> Norm = Norm(ast), group count and names")
 
@@ -527,7 +527,7 @@ def c19(ctx):
                 "non-trivial = matching cells")
     t3 = texts("sig6", 3)
     mc_front(ctx)
-    mc_pipeline(ctx, 13, 150)
+    mc_pipeline(ctx, 15, 150)
     sp = []
     for n in (1, 2, 3):
         sp += read_ndjson(common.export("spell_core_%d" % n, "spell", n, prof="core"))
@@ -962,7 +962,7 @@ def run_parse_oracle(ctx, name, recs, treelemma_is_violation=True, mode=None):
 
 @check("C06")
 def c06(ctx):
-    ctx.rule = ("inputs = every sequence of up to N fragments of the 97-fragment vocabulary of Contract.tla (exported by TLC), the amplification family "
+    ctx.rule = ("inputs = every sequence of up to N fragments of the 100-fragment vocabulary of Contract.tla (exported by TLC), the amplification family "
                 "opener^k body closer^k for k in {64, 1000, 100000}, 30 construct templates x 17 huge-count / huge-index stressors, seeded random longer sequences and mutations of valid patterns; each is passed to "
                 "Regex::new in a child process (debug build: overflow checks on; 2 GiB address-space limit; CPU limit) under catch_unwind; TLC checks the "
                 "contract on every recorded outcome (Ok or Err, error position <= length, time budget); a dead child is the outcome `abort` of the input "
